@@ -18,9 +18,11 @@ RULE = ("experiments with 1-3 environments x 1-2 learners x 1-2 evaluators; 0-6 
         "non-trivial = at least two rows with different key sets")
 
 def fingerprints():
-    return (fingerprint_defs('coba/results/core.py', ['TransactionEncode.filter', 'TransactionDecode.filter', 'TransactionResult.filter']) +
-            fingerprint_defs('coba/utilities.py', ['minimize']) + fingerprint_defs('coba/experiments/core.py', ['Experiment.run']) +
-            fingerprint_defs('coba/json.py', ['dumps', 'loads', 'dumps_registered']) + fingerprint_defs('coba/pipes/sinks.py', ['DiskSink.write', 'ListSink.write']))
+    d = {}
+    for rel, quals in (('coba/results/core.py', ['TransactionEncode.filter', 'TransactionDecode.filter', 'TransactionResult.filter']), ('coba/utilities.py', ['minimize']),
+                       ('coba/experiments/core.py', ['Experiment.run']), ('coba/json.py', ['dumps', 'loads', 'dumps_registered']), ('coba/pipes/sinks.py', ['DiskSink.write', 'ListSink.write'])):
+        d.update(fingerprint_defs(rel, quals))
+    return d
 
 RESERVED = {'environment_id', 'learner_id', 'evaluator_id', 'index'}
 STRS = ["", "a", "naïve", "日本", "\U0001F600", "line1\nline2", "cr\rlf\r\n", "tab\t\"q\"\\", "  ", "caf\udce9", "x" * 70, " lead", "null", "NaN", "[1,2]", "{\"_packed\":1}"]
